@@ -33,3 +33,29 @@ package results
 //@                     third.GlobalVarMaps[strName].VarVec[k].ExtraGlobal.FuncLv, third.GlobalVarMaps[strName].VarVec[k].ExtraGlobal.ScopeLv,
 //@                     third.GlobalVarMaps[strName].VarVec[k].Loc.StartLine, strord(third.GlobalVarMaps[strName].VarVec[k].FileName)))
 //@ end
+
+// ---- C06 / C11: the occurrence matcher of find-references and rename ----
+// Symbol identity is (file, declaration Loc, name). MatchVarInfo is the only place that collects an
+// occurrence: it must collect exactly when the declaration a use resolved to IS the target symbol.
+//@ spec sameLoc(a lexer.Location, b lexer.Location) bool = a.StartLine == b.StartLine && a.EndLine == b.EndLine && a.StartColumn == b.StartColumn && a.EndColumn == b.EndColumn
+
+// A target, once set, has at least its own name in the suffix list (SetFindReferenceInfo is the only writer).
+//@ typeinv ReferenceFileResult [C06,C11]: self.findSymbol != nil ==> len(self.referSuffVec) >= 1
+
+//@ func (*ReferenceFileResult).SetFindReferenceInfo
+//@   props C06 C11
+//@   requires[a-target-comes-with-its-name] varInfo != nil ==> len(referSuffVec) >= 1
+//@   ensures[target-is-recorded] r.fileName == strName && r.findSymbol == varInfo && r.referSuffVec == referSuffVec
+//@ end
+
+//@ func (*ReferenceFileResult).MatchVarInfo
+//@   props C06 C11
+//@   ensures[collects-only-uses-of-the-target-declaration] result ==> old(r.findSymbol) != nil && varInfo != nil && streq(old(r.fileName), fileName)
+//@        && sameLoc(old(r.findSymbol.Loc), old(varInfo.Loc))
+//@   ensures[collects-only-the-target-name] result && !excludeRequire ==> streq(old(r.referSuffVec[0]), strName)
+//@   ensures[one-location-per-match] len(r.FindLocVec) == old(len(r.FindLocVec)) + (result ? 1 : 0)
+//@   ensures[plain-name-match-is-complete] old(r.findSymbol) != nil && varInfo != nil && streq(old(r.fileName), fileName) && !excludeRequire
+//@        && len(old(r.referSuffVec)) == 1 && streq(old(r.referSuffVec[0]), strName) && len(strPreExp) == 0
+//@        && sameLoc(old(r.findSymbol.Loc), old(varInfo.Loc)) ==> result
+//@   ensures[target-unchanged] r.findSymbol == old(r.findSymbol) && r.fileName == old(r.fileName) && r.referSuffVec == old(r.referSuffVec)
+//@ end
